@@ -510,6 +510,15 @@ func (p *Peer) addConnection(c *Connection, direction connectionDirection) error
 	verifPoint("peer.addConnection.afterCheck", c.connID)
 
 	p.Lock()
+	// Check the state again with the peer locked: the connection may have started
+	// closing since the check above (e.g. Channel.Close or the idle sweep), and its
+	// close callbacks may already have looked for it in this peer. A connection that
+	// stops being active after this check is removed by connectionCloseStateChange,
+	// which takes the same lock.
+	if c.readState() != connectionActive {
+		p.Unlock()
+		return ErrInvalidConnectionState
+	}
 	*conns = append(*conns, c)
 	p.Unlock()
 
